@@ -23,7 +23,7 @@ CHECKS = {
          "UUID(x)=UUID(y) iff same kind and structurally equal, and Triple.Equal likewise, for all ordered pairs within each value family of a 1.6k (8.9k) value universe built from near-collisions; UUID defined on all int64/float64 boundary values; 10 concurrent scenarios x every schedule with <= 3 (6) deviations, each result equal to the sequential one; table also recomputed by 8 free-running goroutines and by a re-executed process.",
          "Schedule part: triple/node is not instrumented (its pool is the real one); second process = same binary on this machine.", "3/C06"),
  "C07": ("model_checking", "stateless model checking of the real (AST-instrumented) storage/memory, planner and table code under a cooperative scheduler: unbounded exploration with sleep sets per scenario plus deviation-bounded exploration without reduction; histories checked with porcupine against the set model",
-         "15 scenario families x result-channel capacity 0/1 (2-25 threads; S6 = BQL INSERT || 2-clause SELECT, S6b CONSTRUCT || DROP, S6c SHOW || CREATE || DROP, S8 with sync.Pool modelled, S9 removal of triples never stored; per-lookup error-path and option scenarios). S1, S2, S3a, S4, S5a, S5b, S7: every Mazurkiewicz trace of the synchronisation operations and every schedule with <= 2 (quick) / <= 3 (thorough) deviations unreduced; S3 (shared LookupOptions) <= 3/4 deviations; S6 <= 1/2. On every execution: no panic / deadlock / leak / horizon, close exactly once also on error paths, batch atomicity, linearizability (porcupine), options unchanged before / during / after the call.",
+         "18 scenario families x result-channel capacity 0/1 (2-25 threads; S6 = BQL INSERT || 2-clause SELECT, S6b CONSTRUCT || DROP, S6c SHOW || CREATE || DROP, S8 with sync.Pool modelled, S9 removal of triples never stored; per-lookup error-path and option scenarios). S1, S2, S3a, S4, S5a, S5b, S7: every Mazurkiewicz trace of the synchronisation operations and every schedule with <= 2 (quick) / <= 3 (thorough) deviations unreduced; S3 (shared LookupOptions) <= 3/4 deviations; S6 <= 1/2. On every execution: no panic / deadlock / leak / horizon, close exactly once also on error paths, batch atomicity, linearizability (porcupine), options unchanged before / during / after the call.",
          "Interleaving granularity is synchronisation operations; data-race freedom is validated, not decided, by a free-running -race companion. The explored program is the instrumented copy (map capacity hints dropped, map order ascending). RWMutex, WaitGroup and channel semantics are a transcription of Go's.", "3/C07"),
  "C08": ("model_checking", "stateless model checking of the real, AST-instrumented run.BQL pipeline: one controlled execution per (statement text, fresh store, chanSize, bulkSize) on the default schedule with global oracles (panic in any thread incl. log.Fatalf, deadlock, leak after return, tick/step horizon), every schedule with <= 1 deviation on every K-th execution; input spaces enumerated exhaustively",
          "S1 every token sequence <= 3 over the 55 kinds and every viable grammar prefix <= 6 (9) extended by each kind, with and without ';'; S2 every grammar sentence <= 14 (15) tokens, every single-token mutant (delete / duplicate / truncate / replace by each kind) and every lexeme-level edit; S3 every byte string <= 3 (4) over 18 punctuation bytes; S4 a 66-statement corpus x chanSize {0,1,3} x bulkSize {0,1,1000}; S5 every mutant of the corpus; against empty, named-empty and populated stores. 0.41 M (3.9 M) executions.",
